@@ -297,6 +297,28 @@ def modelTerminateStages : List String :=
   ["sendTerminalError", "unprotect", "delete", "cancelFn", "loaderCleanup", "traverserShutdown",
    "shutdownCheck", "closeProgress", "closeErrors", "notifyTerminated"]
 
+/-- cancelRequest on a tracked request: remember the CancelRequest caller, cancel message to the
+    request's peer, cancelOnError -/
+def cancelLive (s : State) (api : Bool) : State :=
+  let s := if api then { s with waiters := s.waiters + 1 } else s
+  let s := { s with outbox := s.outbox ++ [{ kind := .cancel, peer := s.peer }] }
+  cancelOnError s (if api then some Err.cc else none)
+
+/-- a response hook returned an error: cancel message to the request's peer, cancelOnError -/
+def hookCancel (s : State) : State :=
+  cancelOnError { s with outbox := s.outbox ++ [{ kind := .cancel, peer := s.peer }] } (some Err.hook)
+
+/-- IngestResponse (refused while the loader is offline) -/
+def ingest (s : State) (items : Nat) : State :=
+  if s.hasLoader && s.online then { s with rq := s.rq + items } else s
+
+/-- processTerminations for one response with status `st` -/
+def procTerminations (s : State) (st : Nat) : State :=
+  if isTerminal st then
+    let s := if isFailure st then cancelOnError s ((asError st).map Err.status) else s
+    if s.reg == .live && s.hasLoader then { s with online := false } else s
+  else s
+
 def handle (s : State) (m : Msg) : State :=
   match m with
   | .newReq =>
@@ -307,29 +329,16 @@ def handle (s : State) (m : Msg) : State :=
   | .cancel api =>
     if s.reg != .live then
       if api then { s with apiLog := s.apiLog ++ [ApiRes.cancelNotFound] } else s
-    else
-      let s := if api then { s with waiters := s.waiters + 1 } else s
-      let s := { s with outbox := s.outbox ++ [{ kind := .cancel, peer := s.peer }] }
-      cancelOnError s (if api then some Err.cc else none)
+    else cancelLive s api
   | .responses p st items hk =>
     -- processResponses: filterResponsesForPeer and processExtensions (response hooks) in the order of the
     -- source (`hooksAfterPeerFilter`); a hook error cancels the request and drops the response
     let passesFilter := s.reg == .live && p == s.peer
     let hookRuns := if GS.Generated.ReqLifecycleSpec.hooksAfterPeerFilter then passesFilter else true
     if hookRuns && hk then
-      if s.reg != .live then s
-      else
-        let s := { s with outbox := s.outbox ++ [{ kind := .cancel, peer := s.peer }] }
-        cancelOnError s (some Err.hook)
+      if s.reg != .live then s else hookCancel s
     else if !passesFilter then s
-    else
-      -- IngestResponse (refused while offline)
-      let s := if s.hasLoader && s.online then { s with rq := s.rq + items } else s
-      -- processTerminations
-      if isTerminal st then
-        let s := if isFailure st then cancelOnError s ((asError st).map Err.status) else s
-        if s.reg == .live && s.hasLoader then { s with online := false } else s
-      else s
+    else procTerminations (ingest s items) st
   | .pause =>
     if s.reg != .live then { s with apiLog := s.apiLog ++ [ApiRes.pauseNotFound] }
     else if s.rstate == .paused then { s with apiLog := s.apiLog ++ [ApiRes.pauseAlready] }
